@@ -320,9 +320,13 @@ def match_known(f: Failure, known):
     for e in known:
         if e.get('kind', 'known') != 'known':
             continue   # 'fixed' entries suppress nothing
-        sigs = e.get('signatures') or [e.get('signature')]
+        sigs = e.get('signatures') or ([e['signature']] if e.get('signature') else [])
         if f.sig in sigs:
             return e
+        import fnmatch
+        for pat in e.get('patterns', []):
+            if fnmatch.fnmatchcase(f.sig, pat):
+                return e
     return None
 
 
@@ -374,6 +378,14 @@ def run_check(pid: str, tier: str, seed: int, replay: str | None = None) -> int:
                 mod.sweep(ctx)
             except Exception:
                 ctx.brk('correspondence', pid + '.sweep', 'sweep harness exception: ' + traceback.format_exc()[-2000:])
+        # 5b. replay every listed known finding on the implementation (it must be reported on every run while it exists)
+        if hasattr(mod, 'check_known'):
+            for e in known:
+                if e.get('kind', 'known') == 'known' and e.get('witness') is not None:
+                    try:
+                        mod.check_known(ctx, e)
+                    except Exception:
+                        ctx.notes.setdefault('check_known_exceptions', []).append(e['id'] + ': ' + traceback.format_exc()[-300:])
         # 6. search ----------------------------------------------------------------------------------------------
         unlisted = [f for f in ctx.failures if not match_known(f, known)]
         if ctx.broken and not unlisted and hasattr(mod, 'search'):
